@@ -744,6 +744,10 @@ func init() {
 	reg("(*strings.Builder).WriteString", func(fr *frame, a []value) value {
 		i := fr.i
 		i.builderSet(a[0], i.strConcat(bget(i, a[0]), a[1]))
+		if _, isRope := a[1].(*Rope); isRope {
+			// the byte count of a formatted chunk may depend on symbolic values (quoting): leave it unconstrained
+			return tuple{&Sym{i.tt.Var(i.freshName("written"), 64), types.Int}, iface{}}
+		}
 		return tuple{i.strLenOr(a[1]), iface{}}
 	})
 	reg("(*strings.Builder).WriteByte", func(fr *frame, a []value) value {
